@@ -168,17 +168,31 @@ def holds (r : Rule) (ms : List Mem) : Bool :=
       m.subs.all (fun b => decide (a ≤ b)) && decide (m.subs.length ≤ 1) &&
       (if r.stopBefore a then m.subs.isEmpty else true)
 
+/-- the competing-submission event (if any) was delivered before the slot `s` -/
+def evStop (tie : List Kind) (s : Nat) (ev : Option Nat) : Bool :=
+  match ev with | some e => before tie (e, .event) (s, .slot) | none => false
+
+/-- the timeout `t` or the competing event was delivered before the slot `s` -/
+def stopB (tie : List Kind) (s t : Nat) (ev : Option Nat) : Bool :=
+  before tie (t, .timeout) (s, .slot) || evStop tie s ev
+
 def relayRule (n step start : Nat) (ev : Option Nat) (tie : List Kind) : Rule :=
   { ref := start, limit := some (start + n * step), mustNotWait := false,
-    stopBefore := fun a =>
-      before tie (start + n * step, .timeout) (a, .slot) ||
-      (match ev with | some e => before tie (e, .event) (a, .slot) | none => false) }
+    stopBefore := fun a => stopB tie a (start + n * step) ev }
 
 def bdkgRule (start : Nat) (reg : Option Bool) (ev : Option Nat) (tie : List Kind) : Rule :=
   { ref := start, limit := none, mustNotWait := (reg == some true),
-    stopBefore := fun a => match ev with | some e => before tie (e, .event) (a, .slot) | none => false }
+    stopBefore := fun a => evStop tie a ev }
 
 def tbtcRule (cur : Nat) (already : Bool) (w : Wait) : Rule :=
   { ref := cur, limit := none, mustNotWait := already, stopBefore := fun _ => w != .reached }
+
+/-- tBTC DKG result: the result is "already there" when the DKG left the awaiting-result state -/
+def tdkgRule (cur : Nat) (state : Option Nat) (w : Wait) : Rule :=
+  tbtcRule cur (state != some Gen.C47.awaitingResultState && state != none) w
+
+/-- inactivity claim: "already there" when the on-chain nonce moved past the claim's nonce -/
+def tinactRule (cur nonce chainNonce : Nat) (w : Wait) : Rule :=
+  tbtcRule cur (decide (chainNonce > nonce)) w
 
 end KeepVerif.C47
